@@ -325,9 +325,10 @@ func (c *Channel) proposeNewSession(sid [32]byte, newS *Session) (ret *Session) 
 func (c *Channel) onReadySession(now time.Time) error {
 	se := c.sessions[2]
 	sessRemote := se.Session.RemoteKey()
-	if !c.remoteKey.IsZero() && !x509.EqualPublicKeys(&c.remoteKey, &sessRemote) {
+	if err := c.checkKey(&sessRemote); err != nil {
+		// the key is neither the one this channel is bound to, nor (for a first contact) accepted
 		c.setNext(sessionEntry{})
-		return errors.New("session negotiated with wrong peer")
+		return errors.Wrapf(err, "session negotiated with wrong peer")
 	}
 	c.remoteKey = se.Session.RemoteKey()
 	c.lastReceived = now
